@@ -70,6 +70,17 @@ func c12Shapes() []*spec.Spec {
 		s.MaxTasks = 8
 		out = append(out, s)
 	}
+	// several parameter feeders closing their connection to one parameter port
+	{
+		s := mk("param_fanin", 2)
+		p := cmd("PF", nil, o1, 1)
+		p.Cmd = spec.BuildCmd("PF", nil, o1, []string{"k"}, nil, nil)
+		p.Outs = []*spec.Out{{Port: "out", Pattern: "pf_{p:k}.out"}}
+		p.Feeds = []*spec.Feed{{Port: "k", How: "str", Values: []string{"l1", "l2"}}, {Port: "k", How: "int", Values: []string{"7", "8"}}}
+		s.Procs = append(s.Procs, p, &spec.Proc{Name: "PSA", Kind: spec.KParamSource, Values: []string{"a1", "a2", "a3"}}, &spec.Proc{Name: "PSB", Kind: spec.KParamSource, Values: []string{"b1", "b2", "b3"}})
+		s.Conns = append(s.Conns, &spec.Conn{From: "PSA.out", To: "PF.k", Param: true}, &spec.Conn{From: "PSB.out", To: "PF.k", Param: true})
+		out = append(out, s)
+	}
 	// fan-in of many upstreams closing at once
 	{
 		s := mk("fanin_close", 3)
